@@ -69,3 +69,27 @@ PROPS["C03"] = {
          "shards": {"quick": 8, "thorough": 16}},
     ],
 }
+
+INT = "internal"
+
+PROPS["C09"] = {
+    "level": "exploration",
+    "rule": ("0-6 generated ClientCompatResponse messages (0 B - 70 kB, protoreflect-driven generator) encoded by the repo's encoders or an independent 6-line encoder, "
+             "served through a reader whose Read boundaries are drawn by construction (1-byte reads, cut inside a 4-byte prefix, cut at the prefix/payload boundary, reads spanning frames, "
+             "zero-byte reads, data returned together with EOF), optionally truncated inside a prefix / inside a payload / at a frame boundary; binary via ReadDelimitedMessage and via NewCodec(false), JSON via NewCodec(true); "
+             "oracle: exact round trip, then io.EOF at a clean end or an unexpected-EOF error after exactly the complete messages; Oversize: prefixes limit+1..2^32-1 must be rejected naming the size with no further Read and no allocation; "
+             "AtLimit: sizes limit-2..limit+2; Stall: a peer that blocks after k bytes yields a timeout error with the exact progress text. Non-trivial: >=2 messages with a cut inside a prefix/spanning reads/1-byte reads, or truncation strictly inside a frame, or a stall after >=1 byte."),
+    "assumptions": ["readers never block on a zero-length Read (io.Pipe does; OS pipes do not)",
+                    "the stream decoders of NewCodec have no size limit by design; the limit clause is asserted for ReadDelimitedMessage only",
+                    "stall checks assert only >= timeout and generous upper bounds; a run slower than 10 s is not judged"],
+    "units": [
+        {"name": "C09Chunking", "pkg": INT, "test": "TestVerifC09Chunking", "kind": "rapid",
+         "checks": {"quick": 4000, "thorough": 60000}, "shards": {"quick": 4, "thorough": 16}},
+        {"name": "C09Oversize", "pkg": INT, "test": "TestVerifC09Oversize", "kind": "rapid",
+         "checks": {"quick": 2000, "thorough": 50000}, "shards": {"quick": 1, "thorough": 2}},
+        {"name": "C09AtLimit", "pkg": INT, "test": "TestVerifC09AtLimit", "kind": "rapid",
+         "checks": {"quick": 2000, "thorough": 50000}, "shards": {"quick": 1, "thorough": 2}},
+        {"name": "C09Stall", "pkg": INT, "test": "TestVerifC09Stall", "kind": "rapid",
+         "checks": {"quick": 150, "thorough": 1500}, "shards": {"quick": 2, "thorough": 8}},
+    ],
+}
